@@ -83,6 +83,7 @@ def run_jobs(exe_h, exe_p, lines, jobs, tag, per_job_timeout=60.0, parallel=1):
                 except ProcessLookupError:
                     pass
                 so, se = p.communicate()
+            last_hung = False
             for line in so.splitlines():
                 try:
                     r = json.loads(line)
@@ -90,7 +91,11 @@ def run_jobs(exe_h, exe_p, lines, jobs, tag, per_job_timeout=60.0, parallel=1):
                     continue
                 results[r["id"]] = r
                 done += 1
-            if done < len(todo):
+                last_hung = bool(r.get("hung"))
+            if done < len(todo) and last_hung:
+                # the watchdog wrote the trace of the hung job and ended the worker on purpose: nothing is lost
+                todo = todo[done:]
+            elif done < len(todo):
                 bad = todo[done]
                 results[bad["id"]] = {"id": bad["id"], "ok": False, "worker_died": True, "rc": p.returncode,
                                       "stderr": se[-1500:], "out": bad["out"]}
@@ -244,10 +249,27 @@ def run_stalk(tier):
             "Stalk_G3.cfg": dict(workers=1, deadlock=False),
         })
     res = {}
-    with ThreadPoolExecutor(max_workers=4 if thorough else 6) as ex:
-        futs = {k: ex.submit(_stalk, k, **kw) for k, kw in jobs.items()}
-        for k, f in futs.items():
-            res[k] = f.result()
+    # development only (mutant runs against a scratch worktree): C09_TLC_CACHE=<file> reuses TLC's outputs for an
+    # unchanged specification / tier / seed
+    cache = os.environ.get("C09_TLC_CACHE")
+    key = vlib.stable_hash([tier, vlib.seed(), sorted(jobs), [(f.name, f.read_text()) for f in sorted(SPEC.glob("Stalk*"))
+                                                             if not f.name.startswith("StalkSig")]])
+    if cache and Path(cache).exists() and json.loads(Path(cache).read_text()).get("key") == key:
+        for k, v in json.loads(Path(cache).read_text())["res"].items():
+            r = vlib.TlcResult()
+            r.out, r.distinct, r.generated, r.depth, r.violated, r.wall = v["out"], v["distinct"], v["generated"], v["depth"], v["violated"], v["wall"]
+            r.coverage = {a: tuple(b) for a, b in v["coverage"].items()}
+            res[k] = r
+        log("[c09] TLC outputs taken from", cache)
+    else:
+        with ThreadPoolExecutor(max_workers=4 if thorough else 6) as ex:
+            futs = {k: ex.submit(_stalk, k, **kw) for k, kw in jobs.items()}
+            for k, f in futs.items():
+                res[k] = f.result()
+        if cache:
+            Path(cache).write_text(json.dumps({"key": key, "res": {k: {"out": "\n".join(l for l in r.out.splitlines() if l.startswith('<<"SCHED"')),
+                                   "distinct": r.distinct, "generated": r.generated, "depth": r.depth, "violated": r.violated,
+                                   "wall": r.wall, "coverage": r.coverage} for k, r in res.items()}}))
     for k, r in res.items():
         if r.violated:
             # a violated invariant of the tracer MODEL is a prediction, not an observation of the code: the
@@ -347,6 +369,15 @@ def steer_jobs(sk):
     return jobs
 
 
+def suspect_jobs():
+    """dedicated scenarios for suspected defects (DESIGN App. C): a sibling arrives at a user breakpoint while
+    the focus thread performs `next`"""
+    return [{"mode": "steer", "n": 2, "k": 2, "k2": 1, "sites": 1, "spawn": 0, "seed": 1, "scenario": "next_sibling",
+             "cmds": ["next"], "timeout": 90, "cmd_timeout": 30,
+             "script": [{"c": 0, "k": 0, "t": 0, "sys": "wait", "lb": "rs2", "w": "trap"},
+                        {"c": 1, "k": 6, "t": 1, "sys": "wait", "lb": "rs2", "w": "trap"}]}]
+
+
 def execute(exe_h, exe_p, lines, jobs, tag, parallel):
     for i, j in enumerate(jobs):
         j["id"] = f"{tag}{i}"
@@ -426,6 +457,7 @@ def judge(rep, jobs, results, tag, parallel):
                 keep.write_text(Path(j["out"]).read_text())
                 rep.mismatch(v["class"], v["action"], expected=v["expected"], actual=v["actual"], event=v["k"],
                              mode=j["mode"], shape=f"n={j['n']},k={j['k']},spawn={j['spawn']},sites={j['sites']}",
+                             scenario=j.get("scenario", "continue_only"),
                              job={k: x for k, x in j.items() if k not in ("out", "id")}, trace=str(keep), script=j.get("script"))
         for st in verdict["stats"][:2]:
             if len(samples) < 6:
@@ -458,7 +490,7 @@ def run(rep, tier, replay):
     log(f"[c09] TLC + free runs done after {time.time()-t0:.0f}s")
     sk = skeletons(res, tier, rng)
     chosen, npairs = pick(sk, 400 if thorough else 36, rng)
-    sj = steer_jobs(chosen)
+    sj = steer_jobs(chosen) + suspect_jobs()
     log(f"[c09] {len(sj)} steered sessions from {len(sk)} skeletons ({npairs} (label, event) pairs)")
     sres = execute(exe_h, exe_p, lines, sj, "s", 6 if thorough else 5)
     log(f"[c09] sessions done after {time.time()-t0:.0f}s")
